@@ -247,6 +247,35 @@ one element per `+=` executed. -/
 def attribAt (instrs : List NInstr) (b : Basis) (q : Option Nat) (t : Int) : List (Nat × Rat) :=
   instrs.filterMap (·.hits b q t)
 
+/-! #### The accumulation rule `_add_channel_samples`
+
+Amplitudes and detunings add up (`+=`).  The phase of a channel is painted over its whole
+duration, so the patched `to_nested_dict` does not simply add phases:
+`phase = phase * (1 - only_new) + cs.phase * (1 - only_prev)` where `only_new` /
+`only_prev` say that only the added channel / only the entry so far has a non-zero amplitude.
+Structurally the phase sample of an entry is the list of channels whose (painted) phase
+samples are summed in it.  Whether an amplitude sample is non-zero is a fact about sample
+*values* (C16): it enters as the oracle `on k` ("channel `k` has a non-zero amplitude at this
+time"); amplitudes are non-negative, so the entry's amplitude so far is non-zero iff one of
+the channels added so far is on. -/
+
+/-- Phase part of `_add_channel_samples` on one sample: `prev` are the channels whose phases
+the entry sums so far, `prevOn` / `newOn` the two `!= 0` tests, `k` the added channel. -/
+def mergePhase (prev : List Nat) (prevOn newOn : Bool) (k : Nat) : List Nat :=
+  (if newOn && !prevOn then [] else prev) ++ (if prevOn && !newOn then [] else [k])
+
+/-- The phase sample of an entry after the channels `writers` (in execution order) were added:
+(channels whose phases are summed, amplitude non-zero). -/
+def entryPhase (on : Nat → Bool) (writers : List Nat) : List Nat × Bool :=
+  writers.foldl (fun acc k => (mergePhase acc.1 acc.2 (on k) k, acc.2 || on k)) ([], false)
+
+/-- The rule before the patch (`d[..][PHASE] += cs.phase`): every writer's phase is summed. -/
+def entryPhaseSum (writers : List Nat) : List Nat := writers
+
+/-- The phase sample at `t` of entry `(b, q)` of `to_nested_dict`. -/
+def nestedPhaseAt (instrs : List NInstr) (on : Nat → Bool) (b : Basis) (q : Option Nat) (t : Int) : List Nat :=
+  (entryPhase on ((attribAt instrs b q t).map (·.1))).1
+
 /-- The view of a scheduled channel. -/
 def ChanState.view (c : ChanState) (weights : List Rat) : ChanView :=
   { basis := c.cfg.basis, isLocal := c.cfg.isLocal, isDmm := c.cfg.isDmm,
